@@ -4,7 +4,7 @@
 import os, sys, json, subprocess, re, glob
 HERE = os.path.dirname(os.path.dirname(os.path.abspath(__file__)))
 only = sys.argv[1:]; REPO = os.environ.get('VERIF_REPO', '/repo')
-res_p = os.path.join(HERE, 'seeded', 'RESULTS.json'); res = json.load(open(res_p)) if os.path.exists(res_p) else {}
+res_p = os.environ.get('SEED_RESULTS', os.path.join(HERE, 'seeded', 'RESULTS.json')); res = json.load(open(res_p)) if os.path.exists(res_p) else {}
 for d in sorted(glob.glob(os.path.join(HERE, 'seeded', 'C*-*'))):
     sid = os.path.basename(d); prop = sid.split('-')[0]
     if only and sid not in only and prop not in only: continue
